@@ -425,7 +425,8 @@ sys.exit(1 if bad else 0)
 
 def write_replay(d, f):
     os.makedirs(d, exist_ok=True)
-    name = "c13_%s_%s.py" % (f["op"], abs(hash(repr((f["universe"], f["state"], f["args"])))) % 100000)
+    import zlib
+    name = "c13_%s_%s.py" % (f["op"], zlib.crc32(repr((f["universe"], f["state"], f["args"])).encode()) % 100000)
     path = os.path.join(d, name)
     with open(path, "w") as fh:
         fh.write(REPLAY.format(path=path, verif=os.path.dirname(os.path.dirname(os.path.abspath(__file__))),
